@@ -1,0 +1,39 @@
+//go:build verif
+
+// Contracts for the verification framework in /verif (comment-only file; it is
+// compiled only with -tags verif and contributes no code). Syntax: DESIGN.md §3.
+
+package pppoe
+
+// ---- protocol.go: decoders (C09, C11) ----
+
+//@ func ParsePPPoEHeader
+//@   modifies nothing
+//@   ensures err == nil ==> result != nil && fresh(result) && len(data) >= 6
+//@   ensures err == nil ==> result.VerType == data[0] && result.Code == data[1]
+//@   ensures err == nil ==> result.SessionID == data[2]*256 + data[3] && result.Length == data[4]*256 + data[5]
+//@   ensures err != nil ==> result == nil
+
+//@ func ParseTags
+//@   modifies nothing
+
+//@ func ParseLCPPacket
+//@   modifies nothing
+//@   ensures err == nil ==> result != nil && fresh(result) && len(data) >= 4 && result.Length <= len(data)
+//@   ensures err == nil ==> result.Code == data[0] && result.Identifier == data[1] && result.Length == data[2]*256 + data[3]
+//@   ensures err == nil && result.Length > 4 ==> len(result.Data) == result.Length - 4
+//@   ensures err == nil && result.Length <= 4 ==> len(result.Data) == 0
+//@   ensures err != nil ==> result == nil
+
+//@ func ParseLCPOptions
+//@   modifies nothing
+
+//@ func (p *LCPPacket) Serialize
+//@   modifies nothing
+//@   ensures len(result) == 4 + len(p.Data) && fresh(result)
+
+//@ func SerializeLCPOptions
+//@   modifies nothing
+
+//@ func FindTag
+//@   modifies nothing
